@@ -109,6 +109,7 @@ func checkC09(c *Ctx) {
 	c.Assume("encoding/json decode∘encode = id on bool/number/string values; net/http chunked transfer coding is transparent")
 	c09Dispatch(c)
 	c09Values(c)
+	c09Scenes(c)
 	c09EndToEnd(c)
 }
 
@@ -562,8 +563,8 @@ func c09EndToEnd(c *Ctx) {
 			}
 			for _, want := range []bool{true, false} {
 				var ents []string
-				for _, t := range targets {
-					ents = append(ents, fmt.Sprintf(`{"aid":%d,"iid":%d,"value":%v}`, t.aid, t.ch.ID, want))
+				for k, t := range targets {
+					ents = append(ents, fmt.Sprintf(`{"aid":%d,"iid":%d,"value":%v}`, t.aid, t.ch.ID, want != (k%2 == 1)))
 				}
 				body := `{"characteristics":[` + strings.Join(ents, ",") + `]}`
 				m, err := cl.Do("PUT", "/characteristics", "application/hap+json", []byte(body))
@@ -571,8 +572,8 @@ func c09EndToEnd(c *Ctx) {
 					c.Violate("PUT of valid values spanning several session frames is not accepted", id, fmt.Sprintf("%d writes, body %d bytes", len(targets), len(body)), "204", fmt.Sprint(err, m))
 					return
 				}
-				for _, t := range targets {
-					if t.ch.Value != want {
+				for k, t := range targets {
+					if want := want != (k%2 == 1); t.ch.Value != want {
 						c.Violate("value written by a verified controller is not what the application reads", id,
 							fmt.Sprintf("PUT of %d writes (%d bytes): characteristic %d.%d", len(targets), len(body), t.aid, t.ch.ID), fmt.Sprint(want), fmt.Sprint(t.ch.Value))
 						break
@@ -607,4 +608,119 @@ func c09EndToEnd(c *Ctx) {
 			c.Trace()
 		}()
 	}
+}
+
+// ---- (D) scenes: one PUT that writes several characteristics of different formats with different values ----------------
+
+// c09Scenes: 2-8 writable characteristics of mixed formats in one accessory; one PUT /characteristics carries one entry
+// per characteristic, each with its own valid value (sometimes with an "ev" member in the same entry, sometimes followed
+// by an ev-only entry). Every characteristic must end up with ITS value and its remote-update callback must have
+// received exactly that value.
+func c09Scenes(c *Ctx) {
+	var writable []ctorEntry
+	for _, e := range allCharacteristicCtors {
+		if cc, _ := newCtorCase(e); cc != nil && cc.C.IsWritable() && cc.C.IsReadable() {
+			writable = append(writable, e)
+		}
+	}
+	n := c.Pick(40, 1500)
+	parallel(n, func(i int) {
+		id := c.CaseID("scene", i)
+		if c.Skip(id) {
+			return
+		}
+		r := c.CaseRng("scene", i)
+		acc := accessory.New(accessory.Info{Name: "Scene"}, accessory.TypeOther)
+		svc := service.New("F00D")
+		type tgt struct {
+			cc   *charCase
+			want interface{}
+			cb   []interface{}
+			ev   string
+		}
+		var ts []*tgt
+		for k := 0; k < 2+r.Intn(7); k++ {
+			cc, _ := newCtorCase(writable[r.Intn(len(writable))])
+			svc.AddCharacteristic(cc.C)
+			ts = append(ts, &tgt{cc: cc})
+		}
+		acc.AddService(svc)
+		f, addr, err := verifiedFixture(c, []*accessory.Accessory{acc})
+		if err != nil {
+			c.Violate("C09 fixture cannot be built", id, nil, "fixture", err.Error())
+			return
+		}
+		defer f.Close()
+		var ents, descr []string
+		for _, t := range ts {
+			t := t
+			vals := c09ValuesFor(r, t.cc.C, t.cc.Wrapper, false)
+			t.cc.C.UpdateValue(vals[0]) // start from one valid value …
+			t.want = vals[r.Intn(len(vals))]
+			t.cc.C.OnValueUpdateFromConn(func(_ net.Conn, _ *characteristic.Characteristic, nv, _ interface{}) { t.cb = append(t.cb, nv) })
+			jb, _ := json.Marshal(t.want)
+			e := fmt.Sprintf(`{"aid":%d,"iid":%d,"value":%s`, acc.ID, t.cc.C.ID, jb)
+			if t.cc.C.IsObservable() && r.Intn(4) == 0 {
+				t.ev = []string{"true", "false"}[r.Intn(2)]
+				e += `,"ev":` + t.ev
+			}
+			ents = append(ents, e+"}")
+			descr = append(descr, fmt.Sprintf("%s(%s)=%s", t.cc.Desc, t.cc.C.Format, trunc(string(jb), 40)))
+		}
+		if r.Intn(3) == 0 { // an ev-only entry at the end (for the first observable target)
+			for _, t := range ts {
+				if t.cc.C.IsObservable() {
+					ents = append(ents, fmt.Sprintf(`{"aid":%d,"iid":%d,"ev":true}`, acc.ID, t.cc.C.ID))
+					descr = append(descr, t.cc.Desc+":ev")
+					break
+				}
+			}
+		}
+		prev := make([]interface{}, len(ts))
+		for k, t := range ts {
+			prev[k] = t.cc.C.Value
+		}
+		body := `{"characteristics":[` + strings.Join(ents, ",") + `]}`
+		st, resp, _, pmsg := f.Do(addr, "PUT", "/characteristics", "application/hap+json", []byte(body))
+		if pmsg != "" || st != 204 {
+			c.Violate("PUT of valid values by a verified controller is not accepted", id, descr, "204", fmt.Sprint(st, " ", trunc(string(resp), 200), pmsg))
+			return
+		}
+		nontrivial := false
+		seen := map[uint64]int{}
+		for k, t := range ts {
+			seen[t.cc.C.ID] = k
+		}
+		for k, t := range ts {
+			if seen[t.cc.C.ID] != k {
+				continue
+			}
+			if !sameGoValue(t.cc.C.Value, t.want) {
+				c.Violate("value written by a verified controller is not what the application reads", id,
+					map[string]interface{}{"entries": descr, "characteristic": t.cc.Desc}, fmt.Sprint(t.want), fmt.Sprintf("%T %v", t.cc.C.Value, t.cc.C.Value))
+				return
+			}
+			changed := !sameGoValue(prev[k], t.want) || t.cc.Same
+			if changed {
+				nontrivial = true
+			}
+			if changed && (len(t.cb) != 1 || !sameGoValue(t.cb[0], t.want)) {
+				c.Violate("remote-update callback did not receive the written value exactly once", id,
+					map[string]interface{}{"entries": descr, "characteristic": t.cc.Desc}, fmt.Sprint(t.want), fmt.Sprint(t.cb))
+				return
+			}
+			if !changed && len(t.cb) != 0 {
+				c.Violate("remote-update callback invoked although the value did not change", id, map[string]interface{}{"entries": descr, "characteristic": t.cc.Desc}, "no call", fmt.Sprint(t.cb))
+				return
+			}
+			if t.ev != "" {
+				if sub := f.Session(addr).IsSubscribedTo(t.cc.C); sub != (t.ev == "true") {
+					c.Violate("an entry carrying both a value and \"ev\" does not change the subscription", id,
+						map[string]interface{}{"entries": descr, "characteristic": t.cc.Desc, "ev": t.ev}, t.ev, fmt.Sprint(sub))
+					return
+				}
+			}
+		}
+		c.Count(strings.Join(descr, ";"), nontrivial, "stream:scene", fmt.Sprintf("scene:entries=%d", len(ents)))
+	})
 }
